@@ -312,6 +312,12 @@ func c20Replies(c *core.Collector, x *Ctx) {
 			}
 			d[0] = byte('1' + vi) // the session key is the phone: keep the phones of concurrent connections distinct
 			jobs = append(jobs, job{ver, string(d), c.N(300, 3000)})
+			if l >= 6 {
+				// the same digits with leading zeros (the server strips them for the key and for the 0x8100 auth code)
+				z := append([]byte("000"), d[3:]...)
+				z[3] = byte('4' + vi)
+				jobs = append(jobs, job{ver, string(z), c.N(150, 1500)})
+			}
 		}
 	}
 	// one long connection across the platform-serial wrap
